@@ -58,15 +58,13 @@ def abs_dt(d):
         raise Skip("not a datetime: %r" % (d,))
     off = d.utcoffset()
     if off is not None:
-        if off.microseconds:
-            raise Skip("sub-second offset")
-        off = off.days * 86400 + off.seconds
+        off = off // US                      # microseconds
     return (d.year, d.month, d.day, d.hour, d.minute, d.second, d.microsecond, off)
 
 
 def mk_dt(t):
     y, m, d, h, mi, s, us, off = t
-    return datetime(y, m, d, h, mi, s, us, tzinfo=None if off is None else timezone(timedelta(seconds=off)))
+    return datetime(y, m, d, h, mi, s, us, tzinfo=None if off is None else timezone(timedelta(microseconds=off)))
 
 
 def c_dt(t):
@@ -95,6 +93,11 @@ def run_case(M, kind, arg):
         enc = call(D.Boolean.encode, arg)
         dec = call(D.Boolean.decode, enc)
         return "CBool %s %s %s" % (str(arg).lower(), cstr(enc), copt(dec, lambda b: str(b is True).lower()))
+    if kind == "boolenc":
+        if isinstance(arg, bool): cin, val = "(BBool %s)" % str(arg).lower(), arg
+        elif isinstance(arg, str): cin, val = "(BStr %s)" % cstr(arg), arg
+        else: cin, val = "BOther", eval(arg[1])
+        return "CBoolEnc %s %s" % (cin, copt(call(D.Boolean.encode, val), cstr))
     if kind == "booldec":
         dec = call(D.Boolean.decode, arg)
         return "CBoolDec %s %s" % (cstr(arg), copt(dec, lambda b: str(b is True).lower()))
@@ -125,14 +128,21 @@ def run_case(M, kind, arg):
         dec = None if enc is None else call(M["color"].hex2rgb, enc)
         return "CCss %s %s %s" % (cstr(arg), copt(enc, cstr), copt(dec, c_rgb))
     if kind == "hexa":
-        out = call(M["color"].hexa_color, arg)
-        return "CHexa %s %s" % (cstr(arg), copt(out, cstr))
+        # arg: None | tuple/list of ints | str | ("other", repr): every input form of hexa_color
+        if arg is None: cin, val = "HNone", None
+        elif isinstance(arg, str): cin, val = "(HStr %s)" % cstr(arg), arg
+        elif isinstance(arg, tuple) and arg[:1] == ("other",): cin, val = "HOther", eval(arg[1])
+        else: cin, val = "(HTuple [%s])" % "; ".join(cz(x) for x in arg), tuple(arg)
+        ok, out = limited(lambda: M["color"].hexa_color(val))
+        if not ok and not isinstance(out, (ValueError, TypeError, KeyError)):
+            raise Skip(repr(out))
+        return "CHexa %s %s" % (cin, "None" if not ok else "(Some %s)" % copt(out, cstr))
     if kind in UNIT_KINDS:
         return run_unit_case(M, kind, arg)
     raise Skip("unknown kind " + kind)
 
 
-UNIT_KINDS = ("unitstr", "unitdec")
+UNIT_KINDS = ("unitstr", "unitdec", "unitfloat", "unitconv")
 
 
 def c_dec(d):
@@ -159,13 +169,27 @@ def run_unit_case(M, kind, arg):
         enc = call(str, u)
         back = call(U, enc)
         return "CUnitStr %s %s %s %s" % (c_dec(u.value), cstr(u.unit), cstr(enc), copt(abs_unit(back)))
+    if kind == "unitfloat":
+        u = call(U, arg)
+        return "CUnitFloat %s %s" % (cstr(repr(arg)), "None" if u is None or not u.value.is_finite() else "(Some %s)" % c_dec(u.value))
+    if kind == "unitconv":
+        value, unit, dpi = arg
+        u = call(U, Decimal(value), unit)
+        if u is None:
+            raise Skip("Unit() refused the value")
+        ok, r = limited(lambda: u.convert("px", dpi))
+        if not ok and not isinstance(r, (NotImplementedError, ValueError, TypeError)):
+            raise Skip(repr(r))
+        if ok and (r.unit != "px" or r.value != r.value.to_integral_value()):
+            raise Skip("convert returned %r" % (r,))
+        return "CUnitConv %s %s %s %s" % (c_dec(u.value), cstr(unit), cz(dpi), "None" if not ok else "(Some %s)" % cz(int(r.value)))
     out = call(U, arg)
     return "CUnitDec %s %s" % (cstr(arg), copt(abs_unit(out)))
 
 
 # ---------------------------------------------------------------- direct Python oracle of the property (used when the Coq side breaks)
 RE_DUR = re.compile(r"-?P(\d+D)?(T(\d+H)?(\d+M)?(\d+(\.\d+)?S)?)?", re.A)
-RE_DT = re.compile(r"\d{4}-\d{2}-\d{2}T\d{2}:\d{2}:\d{2}(\.\d+)?(Z|[+-]\d{2}:\d{2})?", re.A)
+RE_DT = re.compile(r"\d{4}-\d{2}-\d{2}T\d{2}:\d{2}:\d{2}(\.\d+)?(Z|[+-]\d{2}:[0-5]\d)?", re.A)
 RE_DATE = re.compile(r"\d{4}-\d{2}-\d{2}", re.A)
 RE_COL = re.compile(r"#[0-9A-Fa-f]{6}", re.A)
 
@@ -190,7 +214,7 @@ def oracle(M, kind, arg):
             return bool(RE_DATE.fullmatch(e)) and D.Date.decode(e) == datetime(*arg)
         if kind == "dt":
             v = mk_dt(arg); e = D.DateTime.encode(v); r = D.DateTime.decode(e)
-            lex = bool(RE_DT.fullmatch(e)) or (arg[7] is not None and arg[7] % 60 != 0)   # a seconds offset has no xsd form
+            lex = bool(RE_DT.fullmatch(e)) or (arg[7] is not None and arg[7] % 60000000 != 0)   # an offset with seconds has no xsd form
             return lex and r == v and r.utcoffset() == v.utcoffset()
         if kind == "rgb":
             try:
@@ -234,16 +258,24 @@ def klass(kind, arg):
     if kind == "hexdec":
         return "hex2rgb/" + ("non-ascii" if any(ord(c) > 127 for c in arg) else "valid" if RE_COL.fullmatch(arg) else "malformed")
     if kind == "dtdec":
-        return "%s.decode/%s" % (arg[0], "valid" if RE_DT.fullmatch(arg[1]) or RE_DATE.fullmatch(arg[1]) else "other")
+        return "%s.decode/%s" % (arg[0], "valid" if RE_DT.fullmatch(arg[1]) or RE_DATE.fullmatch(arg[1]) else "outside-xsd")
     if kind == "dt":
         off = arg[7]
-        return "dt/" + ("naive" if off is None else "utc" if off == 0 else "offset-min" if off % 60 == 0 else "offset-sec") + ("-micro" if arg[6] else "")
+        if off is not None and 0 < abs(off) < 10 ** 6:
+            return "dt/offset-below-one-second"
+        return "dt/" + ("naive" if off is None else "utc" if off == 0 else "offset-min" if off % 60000000 == 0 else "offset-sec" if off % 1000000 == 0 else "offset-microsec") + ("-micro" if arg[6] else "")
     if kind in UNIT_KINDS:
         return unit_klass(kind, arg)
+    if kind == "hexa":
+        if isinstance(arg, str) and arg.strip().startswith("#") and not RE_COL.fullmatch(arg.strip()):
+            return "hexa_color/hash-passthrough"
+        return "hexa_color/" + ("none" if arg is None else "str" if isinstance(arg, str) else "other" if arg[:1] == ("other",) else "tuple")
     return kind
 
 
 def unit_klass(kind, arg):
+    if kind in ("unitfloat", "unitconv"):
+        return "Unit." + kind[4:]
     if kind == "unitstr":
         v = arg[0]
         d = Decimal(v) if isinstance(v, str) else Decimal(str(v))
@@ -345,6 +377,8 @@ def gen_inputs(tier, rng, css):
             for tup in itertools.product("PT1DS.-", repeat=n): add("durdec", "".join(tup))
     # ---- booleans
     add("bool", True); add("bool", False)
+    for t in [True, False, "true", "false", "True", "FALSE", "tRuE", "on", "", "1", " true", "truе", "TRUE\n", ("other", "1"), ("other", "0"), ("other", "b'true'"), ("other", "None"), ("other", "1.0")]:
+        add("boolenc", t)
     for t in ["true", "false", "True", "False", "TRUE", "1", "0", "", " true", "true ", "yes", "tru", "truee", "true", "fa1se"]: add("booldec", t)
     # ---- dates
     years = [1, 2, 4, 99, 100, 400, 999, 1000, 1582, 1899, 1900, 1970, 2000, 2023, 2024, 2100, 9998, 9999]
@@ -405,7 +439,20 @@ def gen_inputs(tier, rng, css):
         add("css", name); add("css", name.upper() if rng.random() < .5 else name.capitalize())
     for t in ["", "nosuchcolour", "re d", " red", "grey0", "#FF0000"]: add("css", t)
     for t in HEXA_HAND: add("hexa", t)
+    for t in [None, (171, 205, 239), (0, 0, 0), (255, 255, 255), (171, 205, 238, 128), (171, 205, -1), (171, 205, 256), (), (1, 2),
+              ("other", "[171, 205, 239]"), ("other", "{}"), ("other", "123456"), ("other", "b'red'"), ("other", "1.5"),
+              "#f00", "#F00", " #ABCDEF", "#abcdef ", "#12345", "#1234567", "#GGGGGG", "# 00000", "#", "##000000", "transparent", "#٠٠٠٠٠٠"]:
+        add("hexa", t)
+    for _ in range(30 if q else 1500):
+        add("hexa", tuple(rng.choice([0, 255, 128, -1, 256, rng.randint(0, 255)]) for _ in range(rng.choice([3, 3, 3, 2, 4]))))
     for name, _v in (css[:20] if q else css): add("hexa", rng.choice(["", " ", "\t"]) + name + rng.choice(["", " ", "\n"]))
+    # offsets were drawn in seconds: the cases carry microseconds; add offsets with a sub-second part (datetime allows them)
+    inp = [(k, a[:7] + (None if a[7] is None else a[7] * 10 ** 6,)) if k in ("dt", "dateofdt") else (k, a) for k, a in inp]
+    for off in [1, -1, 500000, 19800 * 10 ** 6 + 1, -(86399 * 10 ** 6 + 999999), 86399 * 10 ** 6 + 999999, 60 * 10 ** 6 + 7, -3600 * 10 ** 6 - 250000]:
+        add("dt", (2024, 1, 31, 10, 0, 0, 0, off)); add("dt", (1, 1, 1, 0, 0, 0, 999999, off))
+    for _ in range(20 if q else 2000):
+        add("dt", (rng.randint(1, 9999), rng.randint(1, 12), rng.randint(1, 28), rng.randint(0, 23), rng.randint(0, 59), rng.randint(0, 59), rng.choice([0, 1, 999999]),
+                   rng.randint(-86399999999, 86399999999)))
     inp += gen_unit_inputs(tier, rng)
     return inp
 
@@ -426,6 +473,17 @@ def gen_unit_inputs(tier, rng):
     for _ in range(100 if q else 5000):
         d = Decimal((rng.randint(0, 1), tuple(rng.randint(0, 9) for _ in range(rng.randint(1, 12))), rng.randint(-12, 4)))
         inp.append(("unitstr", (str(d), rng.choice(["cm", "mm", "in", "pt", "pc", "px"]))))
+    for v in [0.0, 1.0, 3.14, -2.5, 1e-7, 1e22, 0.1, 123456789.123456789, 5e-324, 1e16, -0.0, 2.54, 1e-5, 0.0001]:
+        inp.append(("unitfloat", v))
+    for _ in range(30 if q else 2000):
+        inp.append(("unitfloat", rng.choice([rng.random(), rng.uniform(-100, 100), rng.uniform(-1, 1) * 10 ** rng.randint(-20, 20)])))
+    for value in ["1", "2.54", "10", "0.0254", "5.08", "-1", "3", "0", "0.5", "21.0", "29.7", "1.27", "100", "7.62", "-2.54", "0.01", "1E+1"]:
+        for unit in ("cm", "in", "mm", "pt"):
+            for dpi in (72, 96, 127, 254, 300, 1, 0, -72):
+                inp.append(("unitconv", (value, unit, dpi)))
+    for _ in range(40 if q else 3000):
+        d = Decimal((rng.randint(0, 1), tuple(rng.randint(0, 9) for _ in range(rng.randint(1, 10))), rng.randint(-8, 1)))
+        inp.append(("unitconv", (str(d), rng.choice(["cm", "in"]), rng.choice([72, 96, 127, 254, 300, 600, rng.randint(1, 2400)]))))
     for t in UNIT_HAND:
         inp.append(("unitdec", t))
     for _ in range(200 if q else 10000):
@@ -513,12 +571,10 @@ def run(tier, seed, replay=None):
         lenient_fromisoformat_accepts=n_len,
         layers={LAYER[c].split(":")[0]: sum(1 for v in hard.values() if v == c) for c in LAYER},
         exhaustive=False)
-    if n_len:
-        print("NOTE: %d strings outside xsd:date/dateTime are accepted by datetime.fromisoformat with their ISO 8601 reading (not an alarm)" % n_len)
     return common.finish(PROP, tier, seed, proofs, coverage, violations, known_seen, t0,
                          assumptions=["durations with a sub-second part are generated below 2^21 hours only (bound of dur_float_exact_us); whole-second durations over the whole timedelta range",
-                                      "time-zone offsets in whole seconds", "colour names and white space: ASCII",
-                                      "strings outside xsd:date/dateTime that datetime.fromisoformat accepts with their ISO 8601 reading are counted, not alarmed"])
+                                      "colour names and white space: ASCII",
+                                      "Date.decode / DateTime.decode accept the same strings (date or dateTime); an offset with a seconds part is accepted though xsd has no form for it (datetime.isoformat writes it)"])
 
 
 if __name__ == "__main__":
